@@ -629,7 +629,60 @@ def chk_history(case):
     return not bad, bad
 
 
-CHECKS = dict(history=chk_history, ft=chk_ft, jb_inverse=chk_jb_inverse, int_pdf=chk_int_pdf, cdf_pdf=chk_cdf_pdf, pdf_statement=chk_pdf_statement,
+def source_size_constants():
+    """numeric constants >= 1e4 (<= 2e6) in covmodel/*.py of the tree under test (literals and literal powers such as 2**16):
+    array sizes around them are size classes of the spectral functions"""
+    import ast
+    import glob
+    out = set()
+    for f in glob.glob(os.path.join(C.REPO, "src", "gstools", "covmodel", "*.py")):
+        try:
+            tree = ast.parse(open(f).read())
+        except Exception:
+            continue
+        for node in ast.walk(tree):
+            v = None
+            if isinstance(node, ast.Constant) and isinstance(node.value, (int, float)) and not isinstance(node.value, bool):
+                v = node.value
+            elif (isinstance(node, ast.BinOp) and isinstance(node.op, ast.Pow) and isinstance(node.left, ast.Constant)
+                  and isinstance(node.right, ast.Constant) and isinstance(node.left.value, int) and isinstance(node.right.value, int)
+                  and 0 < node.right.value < 64):
+                v = node.left.value ** node.right.value
+            if v is not None and 1e4 <= v <= 2e6 and float(v) == int(v):
+                out.add(int(v))
+    return sorted(out)
+
+
+def chk_sizes(case):
+    """the value at a wave number does not depend on which other wave numbers are in the call: spectral_density / spectrum /
+    spectral_rad_pdf on a large n-D array equal the same entries evaluated in small pieces, and keep the shape"""
+    name, d, ls, rs, params, shape = case["cls"], case["dim"], case["len_scale"], case["rescale"], case["params"], tuple(case["shape"])
+    m = make(name, d, ls, rs, params, var=case.get("var", 1.0))
+    l = m.len_rescaled
+    n = int(np.prod(shape))
+    k_flat = (0.05 + 8.0 * np.modf(np.arange(n) * 0.6180339887498949)[0]) / l
+    k = k_flat.reshape(shape)
+    idx = np.unique(np.concatenate([np.arange(min(3, n)), np.arange(max(n - 300, 0), n), np.arange(0, n, max(n // 150, 1)),
+                                    np.array([n // 2, min(65535, n - 1), min(65536, n - 1)])]))
+    bad = {}
+    with np.errstate(all="ignore"), warnings.catch_warnings():
+        warnings.simplefilter("ignore")
+        for fn in case["fns"]:
+            full = np.asarray(getattr(m, fn)(k), dtype=float)
+            if full.shape != k.shape:
+                bad[fn] = dict(shape=list(full.shape), expected=list(k.shape))
+                continue
+            full = full.reshape(-1)
+            piece = np.concatenate([np.asarray(getattr(m, fn)(k_flat[idx[i:i + 64]]), dtype=float).reshape(-1) for i in range(0, len(idx), 64)])
+            ok = np.isclose(full[idx], piece, rtol=1e-12, atol=0.0, equal_nan=True)
+            if not ok.all():
+                j = int(idx[np.argmin(ok)])
+                bad[fn] = dict(first_flat_index=j, k=float(k_flat[j]), in_large_call=float(full[j]), alone=float(piece[np.argmin(ok)]),
+                               n_differing=int((~ok).sum()), of=len(idx))
+    return not bad, bad
+
+
+CHECKS = dict(sizes=chk_sizes, history=chk_history, ft=chk_ft, jb_inverse=chk_jb_inverse, int_pdf=chk_int_pdf, cdf_pdf=chk_cdf_pdf, pdf_statement=chk_pdf_statement,
               tail_finite=chk_tail_finite)
 
 
@@ -649,6 +702,8 @@ def case_key(case, detail=None):
         return KEY_TPLEXP_TAIL
     if k == "history":
         return "history:%s:%s" % (case["cls"], case["history"])
+    if k == "sizes":
+        return "sizes:%s:%s" % (case["cls"], "x".join(str(x) for x in case["shape"]))
     return "%s:%s:d%d" % (k, case.get("cls", "JBessel"), case["dim"])
 
 
@@ -668,9 +723,14 @@ def run_probe(ctx, case, hist=None):
     try:
         ok, detail = CHECKS[kind](case)
     except ReferenceUnavailable as e:
-        ctx.skipped = getattr(ctx, "skipped", 0) + 1
-        ctx.skip_example = "%s dim=%d %s: %s" % (case.get("cls"), case["dim"], case.get("params"), e)
-        return True, {}
+        if "_bounds" in (case.get("params") or {}):
+            # beyond the default argument bounds (e.g. Integral nu = 1000.3: exp_int of order 500): noted, not judged
+            ctx.skipped = getattr(ctx, "skipped", 0) + 1
+            ctx.skip_example = "%s dim=%d %s: %s" % (case.get("cls"), case["dim"], case.get("params"), e)
+            return True, {}
+        # within the bounds the unchanged tree never gets here: a correlation that is non-finite or exceeds 1 in modulus cannot be
+        # the transform pair of the (finite, integrable) spectral density the model reports
+        ok, detail = False, dict(correlation_is_not_a_correlation_function=str(e))
     except Exception as e:   # the implementation (or the reference) raised on this input
         ok, detail = False, dict(exception=repr(e))
     trivial = kind in ("pdf_statement",) and False
@@ -831,7 +891,7 @@ def probes(ctx, rng):
             ctx.count(None, n=0, hist=dict(ft_sets_per_class_dim=len(psets)))
     if getattr(ctx, "skipped", 0):
         ctx.notes.append("%d transform cases skipped because model.correlation itself is not finite / not in [-1,1] on the quadrature nodes "
-                         "(Integral with large non-integer nu next to r = 0: exp_int recursion; a C03 matter), e.g. %s" % (ctx.skipped, ctx.skip_example))
+                         "(only cases beyond the default argument bounds are skipped), e.g. %s" % (ctx.skipped, ctx.skip_example))
     ctx.notes.append("largest |S_code - FT|/S(0) per class on this run (default-path classes: k=0 and k*l>=1 only): %s" % json.dumps(
         {k: float("%.2g" % v) for k, v in worst.items()}))
     # ---- setter histories: dim a -> b, deepcopy then dim, len_scale / rescale / var, anis, optional arguments, hankel_kw (deterministic)
@@ -859,6 +919,57 @@ def probes(ctx, rng):
             for kl in (0.0, 1.0, 3.0):
                 run_probe(ctx, dict(kind="ft", cls=name, dim=d, len_scale=ls, rescale=rescales(rng)[d % 2], params=params, kl=kl, tol=T_HANKEL,
                                     via_dim=d % 3 + 1), hist=dict(path="hankel-default-after-dim-setter"))
+    # ---- exponential-integral orders approaching integers from both sides (|s - n| = 10^-j and 1 ulp): Integral s = 1 + nu/2,
+    #      TPLExponential s = 1 + 2 hurst, TPLGaussian s = 1 + hurst.  exp_int snaps s to the integer n inside |s - n| <= 1e-8 + 1e-5 n
+    #      (C03's open finding exp_int:s-snapped-to-integer); measured effect on the unchanged tree: 0.67 |s - n| S(0) inside the window
+    #      (<= 4e-12 outside), so the tolerance is 1e-8 + |s - n| inside the window and 1e-8 outside
+    js = [3, 5, 8, 12] if quick else list(range(3, 17))
+    deltas = [10.0 ** -j for j in js] + [None]                        # None: one ulp
+    ci = 0
+    for sgn in (+1, -1):
+        for de in deltas:
+            near = []
+            for n_ in (2, 3):
+                nu0 = 2.0 * (n_ - 1)
+                nu = float(np.nextafter(nu0, nu0 + sgn)) if de is None else nu0 + 2 * sgn * de
+                near.append(("Integral", dict(nu=nu), 1 + nu / 2))
+            h = float(np.nextafter(0.5, 0.5 + sgn)) if de is None else 0.5 + sgn * de / 2
+            near.append(("TPLExponential", dict(hurst=h, len_low=0.0), 1 + 2 * h))
+            if sgn < 0:
+                h = float(np.nextafter(1.0, 0.0)) if de is None else 1.0 - de
+                near.append(("TPLGaussian", dict(hurst=h, len_low=0.0), 1 + h))
+            near.append(("Integral", dict(nu=4.1 - 2.1), 1 + (4.1 - 2.1) / 2))          # a parameter that LOOKS integer
+            for name, params, s_ in near:
+                n_ = round(s_)
+                dist = abs(s_ - n_)
+                tol = T_ANALYTIC + (dist if dist <= 1e-8 + 1e-5 * n_ else 0.0)
+                d = ci % 3 + 1
+                ci += 1
+                for kl in (0.0, 1.0) if quick else (0.0, 0.3, 1.0, 3.0):
+                    run_probe(ctx, dict(kind="ft", cls=name, dim=d, len_scale=lu(rng, 0.05, 50), rescale=rescales(rng)[ci % 3], params=params, kl=kl,
+                                        tol=tol), hist=dict(path="analytic-near-integer-order"))
+    # ---- size classes: large n-D wave-number arrays vs the same entries evaluated in small pieces
+    consts = source_size_constants()
+    shapes = [(65535,), (65536,), (65537,), (70001,), (300, 300), (42, 42, 42)]
+    for c_ in consts:
+        for s_ in ((c_ - 1,), (c_ + 1,), (c_ + 4321,), (2 * c_ + 1,), (3, c_ // 2 + 7)):
+            if s_ not in shapes and np.prod(s_) <= 3e5:
+                shapes.append(s_)
+    ctx.notes.append("size classes: numeric constants >= 1e4 found in covmodel/*.py of the tree under test: %s; shapes %s" % (consts, shapes))
+    off = int(rng.integers(len(shapes)))
+    si = 0
+    for name in DEFAULT_PATH + ["Gaussian", "Matern", "Integral", "HyperSpherical", "JBessel", "TPLGaussian", "TPLExponential", "Exponential"]:
+        slow = name == "TPLStable"                                  # exp_int on 14 million lags: one function, one shape
+        per_class = 1 if slow else (2 if quick else 3)
+        for _ in range(per_class):
+            shape = shapes[(off + si) % len(shapes)]
+            si += 1
+            d = si % 3 + 1
+            ls = lu(rng, 0.05, 50)
+            params = resolve(param_sets(name, 3, rng, "quick", for_probe=True)[0], ls)
+            run_probe(ctx, dict(kind="sizes", cls=name, dim=d, len_scale=ls, rescale=rescales(rng)[si % 3], params=params, var=lu(rng, 0.1, 10),
+                                shape=list(shape), fns=["spectral_density"] if slow else ["spectral_density", "spectrum", "spectral_rad_pdf"]),
+                      hist=dict(size_shape="x".join(str(x) for x in shape)))
     # ---- mpmath cross-check of the panel quadrature itself (rotating subset)
     n_mp = 3 if quick else 12
     cand = [(n, d) for n in ("Gaussian", "Exponential", "Matern", "Integral", "TPLGaussian", "TPLExponential", "HyperSpherical") for d in (1, 2, 3)]
